@@ -4,7 +4,7 @@
    an arbitrary schedule (list of thread ids) of arbitrary per-thread programs. *)
 From Coq Require Import ZArith List Bool.
 From V Require Import factory.FacModel factory.FacSpec factory.FacObs factory.FacEq factory.FacEqThm
-  factory.FacLock factory.FacLock2 factory.FacRefute factory.FacThm factory.FacThm2 factory.FacThm3 factory.FacProg.
+  factory.FacLock factory.FacLock2 factory.FacRefute factory.FacThm factory.FacThm2 factory.FacThm3 factory.FacProg factory.FacFresh.
 Import ListNotations.
 Open Scope Z_scope.
 
@@ -58,6 +58,23 @@ Theorem C18_retention_cache_clear_refuted :
     spec_identity_strict (obs_of_log (log (run (init progs) sched))) = false.
 Proof. exact retention_cache_clear_refuted_lemma. Qed.
 Print Assumptions C18_retention_cache_clear_refuted.
+
+(* ---- the nocache / instance constructors return FRESH objects: never an object a factory call
+   looked up, created or returned, never the tzutc singleton, never the same object twice *)
+Theorem C18_instance_fresh : forall progs sched t o,
+  let s := run (init progs) sched in
+  In (EFresh t o) (log s) ->
+  (forall t' f k o' e h, In (ERet t' f k o' e h) (log s) -> o' <> o) /\
+  (forall t' f k o' e, In (EBind t' f k o' e) (log s) -> o' <> o) /\
+  ~ In (Some o) (utc_results (log s)) /\
+  NoDup (fresh_objs (log s)).
+Proof. exact instance_fresh_lemma. Qed.
+Print Assumptions C18_instance_fresh.
+
+Example C18_instance_fresh_example :
+  let s := run (init [[OInstance 0; OCall FOff 5 KFresh 1; OInstance 2]]) (repeat 0%nat 20) in
+  fresh_objs (log s) = [3; 1] /\ map snd (refs s) = [3; 2; 1].
+Proof. vm_compute. split; reflexivity. Qed.
 
 (* ---- tzutc(): every call returns the object created at import (tz.UTC) *)
 Theorem C18_tzutc_identity : forall progs sched o,
